@@ -21,11 +21,12 @@ def run(tier, seed, prop=PROP):
     cov = rep.coverage
     if tier == "thorough":
         # vacuity: every action of the model is taken in some configuration (TWUnstick exists only before the fix)
-        cov["action_coverage"] = vlib.action_coverage("MCMux", ["mux_C_timed.cfg", "mux_E_timed.cfg", "mux_C_safety.cfg"], ignore=("TWUnstick",))
+        cov["action_coverage"] = vlib.action_coverage("MCMux", ["mux_C_timed.cfg", "mux_E_timed.cfg", "mux_C_safety.cfg", "mux_F_down_timed.cfg"], ignore=("TWUnstick",))
     # ---- E2: scenarios (seeded families + TLC-graph-directed schedules) on the real brokers
     n = {"quick": (60, 20, 30, 40), "thorough": (600, 150, 400, 600)}[tier]
     scs = mx.fam_pairs(rng, n[0]) + mx.fam_histories(rng, n[1]) + mx.fam_random(rng, n[2])
     scs += mx.tlc_graph_scripts(rng, n[3], cov)
+    scs += mx.fam_lookup_race(rng, 6 if tier == "quick" else 60) + mx.fam_down(rng, 10 if tier == "quick" else 100, prefix="cdn")
     results, outdir = mx.run_driver(binary, scs)
     # ---- E3: every recorded trace must be a behaviour of the spec
     c = mx.classify_and_validate(rep, scs, results, outdir, prop)
